@@ -111,9 +111,10 @@ def function_vectors(ctx):
         num = rng.randrange(-4000000, 4000000)
         den = rng.choice([1, 2, 3, 7, 10, 1000])
         V.append({"fn": "common.floor", "num": num, "den": den})
-    for a in [0, 0x200000, 0x200001, 0x27FFFE, 0x27FFFF, 0x280000, 0x28FFFF, 0x500000, 0x5FFFFE, 0x5FFFFF, 0x600001, 0x67FFFF,
-              0x680000, 0x680001, 0x6EFFFF, 0x6F0000, 0x900001, 0x9FFFFF, 0xB00001, 0xBFFFFE, 0xD00001, 0xDFFFFF, 0xF00001,
-              0xFFFFFE, 0xFFFFFF] + [rng.randrange(1 << 24) for _ in range(ctx.pick(600, 20000))]:
+    edges = sorted({b + d for b in (0x200000, 0x27FFFF, 0x280000, 0x28FFFF, 0x500000, 0x5FFFFF, 0x600000, 0x67FFFF, 0x680000, 0x6F0000,
+                                     0x900000, 0x9FFFFF, 0xB00000, 0xBFFFFF, 0xD00000, 0xDFFFFF, 0xF00000, 0xFFFFFF)
+                    for d in (-1, 0, 1) if 0 <= b + d < (1 << 24)})
+    for a in [0] + edges + [rng.randrange(1 << 24) for _ in range(ctx.pick(600, 20000))]:
         V.append({"fn": "common.is_icao_assigned", "addr": a, "cs": rng.randrange(2)})
     # cprNL: the C06 latitude set
     V += c06.vectors(ctx)
